@@ -21,6 +21,15 @@ CHECKS = {
  "C12": dict(design="5/C12", technique="TLC model checking of a refinement (implementation-shaped spline model vs curve algebra) + replay of TLC behaviours into the real Spline with state comparison through a probe hook + trace validation",
    text="spec/SplineModel.tla models the five per-segment vectors and find_idx/operator()/concat_local/concat_global/crop as coded next to the denotational curve algebra of the property; TLC checks the refinement (value, velocity, acceleration at every grid time incl. knots and out of range, t_max) for every history in scope, and rejects the upstream crop arithmetic kept as a spec mutant. TLC-simulated behaviours are replayed on real Spline<K,double> objects and spec/TraceSpline.tla compares the logged representation (SplineProbe hook) with the model state after every action; random programs on R^2/SO3/SE2/SE3, K=1..5 (segments, ConstantVelocity, FixedCubic, +=, concat_global, crops on knots / in later segments / beyond the ends) are validated against the abstract curve in matrix space.",
    note="Design model: G = R, K <= 3, bounded piece library and history length (evidence lists constants and TLC state counts). Group-valued programs are samples. Crop boundaries on a value jump are skipped (undetermined by the property). arclength is recorded but not yet judged. Trusted: TLC, JVM, BigRat/RFun overrides, the guarded SplineProbe friend declaration, recording code."),
+ "C06": dict(design="5/C06", technique="TLC trace validation: bundle results against the tuple / block-diagonal / stacked-Hessian arrangement of the same operation on part<i>() defined in the spec; vectors and scalars against the additive group exactly",
+   text="For 8 Bundle compositions (order, repetition, nesting, commutative-only, with Galilei / SE_K_3 members) every operation, Jacobian and Hessian of the bundle is recorded next to the same operation on each part<i>() and TLC checks the tuple / block-diagonal / stacked layout (off-block entries exactly zero); fixed-size vectors, dynamic vectors of size 0..6 and scalars are checked to be the additive group exactly (sum to one rounding, identity maps, I and 0 matrices, dof = size). The spec's own direct-product semantics of Bundles (spec/Groups.tla) is additionally exercised by C01-C05 on the same Bundle types.",
+   note="Finite list of Bundle instantiations (compile-time family); operands are stratified samples. Trusted: TLC, JVM, BigRat override, recording code."),
+ "C15": dict(design="5/C15", technique="abstract machine in TLA+ carrying the exact value of every register through TLC-generated operation programs (trace validation of every produced element)",
+   text="TLC (-simulate on spec/MachineGen.tla) generates operation programs over a register file; the harness replays them, long homogeneous chains (1e3 quick / 1e5 thorough operations) and fixed-step boost::odeint integrations (euler, rk4, cash-karp54, dopri5, fehlberg78) on the real library; spec/TraceMachine.tla applies the same operations to exact rational matrices and checks finite, unit constraint (n+1)1e-14, canonical SO3 sign and accuracy (n+1)1e-13 for every produced element, with n the tracked history length.",
+   note="Double precision only (the statement's bounds). Programs, chains and steppers are samples of all histories; history length is tracked per register as defined in the evidence assumptions. Trusted: TLC, JVM, BigRat/RFun overrides, recording code, boost::odeint."),
+ "C17": dict(design="5/C17", technique="TLC trace validation of relational events (SE_K_3<1>/SE3, SE_K_3<2>/Galilei, lifts, C1 factorisation, rot_x/y/z, conversions, angle ranges) against documented matrix forms, certified exp and a pi enclosure",
+   text="Every relation of the property is recorded as an event on stratified elements/tangents incl. the atan2 cuts and both signs of zero and decided by TLC in exact arithmetic: operation-by-operation equality of SE_K_3<1> with SE3 and of SE_K_3<2> with zero-time Galilei (row/column deletion), lifts as matrix embeddings and homomorphisms inverted by the projections, C1 = scaling * so2, rot_i(t) = ExpM(t hat e_i), quaternion/complex/isometry/Euler round trips with normalisation and canonical sign, and angle()/angle_cw()/angle_ccw() congruent mod 2 pi (sin/cos by series) within their ranges (60-digit pi enclosure, 4 ulp slack).",
+   note="Stratified samples of elements; float and double. Trusted: TLC, JVM, BigRat/RFun overrides, recording code."),
 }
 CHECKS.pop(None, None)
 NA_DEFAULT = "check not built yet (work in progress, see DESIGN.md section 9)"
